@@ -112,21 +112,49 @@ struct Spec {
 }
 
 fn summarize_n<const N: usize>() {
+    summarize_kinds::<N>(None)
+}
+
+/// `kinds` = Some(pattern): the message KINDS are concrete per harness (dispatch keys must be concrete,
+/// DESIGN.md A.2) while elevation numbers and opaque type codes stay symbolic, so one query decides
+/// every grouping / continuation outcome of that kind pattern.
+fn summarize_kinds<const N: usize>(kinds: Option<[u8; N]>) {
+    summarize_spec::<N>(kinds, None, None)
+}
+
+/// `els` / `tys` = Some(labels): concrete elevation numbers / opaque type codes as well (a symbolic
+/// equality that decides whether a group continues makes the group Vec grow under a symbolic
+/// condition: c14_pat_rr ran out of 30 GB in CBMC's propositional reduction).  Azimuth angles are
+/// symbolic (any non-NaN f32) in every variant.
+fn summarize_spec<const N: usize>(kinds: Option<[u8; N]>, els: Option<[u8; N]>, tys: Option<[u8; N]>) {
     let mut spec = [Spec { kind: 0, el: 0, ty: 0, ms: 0 }; N];
     let mut msgs: Vec<Message> = Vec::with_capacity(N);
+    let mut azs = [0f32; N];
     let mut i = 0;
     while i < N {
-        let kind: u8 = kani::any();
+        let kind: u8 = match kinds {
+            Some(k) => k[i],
+            None => kani::any(),
+        };
         kani::assume(kind <= 3);
-        let el: u8 = kani::any();
-        let ty: u8 = kani::any();
+        let el: u8 = match els {
+            Some(e) => e[i],
+            None => kani::any(),
+        };
+        let ty: u8 = match tys {
+            Some(t) => t[i],
+            None => kani::any(),
+        };
         kani::assume(ty != 2 && ty != 5 && ty != 31);
+        let az: f32 = kani::any();
+        kani::assume(!az.is_nan());
+        azs[i] = az;
         // times of day are concrete and NOT monotone (chrono on symbolic instants does not finish
         // here; instant arithmetic is C08's subject): 5 s, 9 s, 7 s, 3 s
         let ms: u32 = [5_000u32, 9_000, 7_000, 3_000][i % 4];
         spec[i] = Spec { kind, el, ty, ms };
         let (t, c) = match kind {
-            0 => (31u8, radial(el, i as f32, false)),
+            0 => (31u8, radial(el, az, false)),
             1 => (2, status()),
             2 => (5, vcp()),
             _ => (ty, MessageContents::Other),
@@ -187,8 +215,8 @@ fn summarize_n<const N: usize>() {
                 q += 1;
             }
             assert!(gr.is_continued == earlier, "C14: continuation flag");
-            assert!(gr.start_azimuth == Some(gr.start_message_index as f32), "C14: first azimuth");
-            assert!(gr.end_azimuth == Some(gr.end_message_index as f32), "C14: last azimuth");
+            assert!(gr.start_azimuth == Some(azs[gr.start_message_index]), "C14: first azimuth");
+            assert!(gr.end_azimuth == Some(azs[gr.end_message_index]), "C14: last azimuth");
         } else {
             assert!(!gr.is_continued && gr.elevation_number.is_none());
         }
@@ -215,11 +243,52 @@ fn summarize_n<const N: usize>() {
     assert!(s.earliest_collection_time == to_dt(lo), "C14: earliest collection time");
     assert!(s.latest_collection_time == to_dt(hi), "C14: latest collection time");
     assert!(s.volume_coverage_patterns.is_empty(), "C14: VCP set must be empty without volume blocks");
-    wit!(g.len() == N);
-    wit!(N < 2 || g.len() == 1);
+    // witnesses must sit in code that is reachable in every instantiation
+    let w1 = if kinds.is_none() { g.len() == N } else { g.len() >= 1 };
+    let w2 = kinds.is_some() || N < 2 || g.len() == 1;
+    wit!(w1);
+    wit!(w2);
     core::mem::forget(s);
     core::mem::forget(msgs);
 }
+
+macro_rules! pat_harness {
+    ($name:ident, $n:expr, $pat:expr, $u:expr) => {
+        #[kani::proof]
+        #[kani::unwind($u)]
+        #[kani::stub(alloc::fmt::format, crate::stubs::fmt_format)]
+        #[kani::stub(std::hash::RandomState::new, random_state_fixed)]
+        fn $name() {
+            summarize_kinds::<$n>(Some($pat));
+        }
+    };
+}
+macro_rules! lab_harness {
+    ($name:ident, $n:expr, $pat:expr, $els:expr, $tys:expr, $u:expr) => {
+        #[kani::proof]
+        #[kani::unwind($u)]
+        #[kani::stub(alloc::fmt::format, crate::stubs::fmt_format)]
+        #[kani::stub(std::hash::RandomState::new, random_state_fixed)]
+        fn $name() {
+            summarize_spec::<$n>(Some($pat), Some($els), Some($tys));
+        }
+    };
+}
+// concrete kinds, elevation labels and type codes; symbolic azimuth angles
+lab_harness!(c14_lab_r1r1r2r1, 4, [0, 0, 0, 0], [1, 1, 2, 1], [0, 0, 0, 0], 8);
+lab_harness!(c14_lab_r1o13o13r1, 4, [0, 3, 3, 0], [1, 0, 0, 1], [0, 13, 13, 0], 8);
+lab_harness!(c14_lab_sr3r3v, 4, [1, 0, 0, 2], [0, 3, 3, 0], [0, 0, 0, 0], 8);
+lab_harness!(c14_lab_o7o9r0r0, 4, [3, 3, 0, 0], [0, 0, 0, 0], [7, 9, 0, 0], 8);
+lab_harness!(c14_lab_r2r2r2sr2r5, 6, [0, 0, 0, 1, 0, 0], [2, 2, 2, 0, 2, 5], [0, 0, 0, 0, 0, 0], 10);
+// R = radial (symbolic elevation number), S = status, V = VCP, O = other (symbolic type code)
+pat_harness!(c14_pat_rr, 2, [0, 0], 8);
+pat_harness!(c14_pat_rrr, 3, [0, 0, 0], 8);
+pat_harness!(c14_pat_rsr, 3, [0, 1, 0], 8);
+pat_harness!(c14_pat_rvr, 3, [0, 2, 0], 8);
+pat_harness!(c14_pat_oor, 3, [3, 3, 0], 8);
+pat_harness!(c14_pat_ssv, 3, [1, 1, 2], 8);
+pat_harness!(c14_pat_rror, 4, [0, 0, 3, 0], 8);
+pat_harness!(c14_pat_rrrr, 4, [0, 0, 0, 0], 8);
 
 macro_rules! sum_harness {
     ($name:ident, $n:expr, $u:expr) => {
@@ -258,6 +327,114 @@ fn c14_probe_concrete() {
     assert!(g[2].start_message_index == 3 && g[2].end_message_index == 3 && g[2].is_continued);
     assert!(g[3].start_message_index == 4 && g[3].end_message_index == 5 && g[3].message_count == 2);
     wit!(g.len() == 4);
+    core::mem::forget(s);
+    core::mem::forget(msgs);
+}
+
+// ---------------------------------------------------------------------------------------------
+// Data-type counts (HashMap<String, usize>) and the VCP set (HashSet): two radials, the first
+// carrying REF + VEL and a VOL block, the second REF only (and optionally a VOL block), elevation
+// numbers symbolic - so both the merged-group and the two-group outcome are decided.
+// ---------------------------------------------------------------------------------------------
+use nexrad_decode::messages::digital_radar_data::{DataBlockId, GenericDataBlock, GenericDataBlockHeader, VolumeDataBlock};
+
+fn moment() -> GenericDataBlock {
+    GenericDataBlock {
+        header: GenericDataBlockHeader {
+            data_block_id: DataBlockId { data_block_type: b'D', data_name: *b"REF" },
+            reserved: 0,
+            number_of_data_moment_gates: 0,
+            data_moment_range: 0,
+            data_moment_range_sample_interval: 0,
+            tover: 0,
+            snr_threshold: 0,
+            control_flags: 0,
+            data_word_size: 8,
+            scale: 2.0,
+            offset: 66.0,
+        },
+        encoded_data: Vec::new(),
+    }
+}
+
+fn vol(vcp: u16) -> VolumeDataBlock {
+    VolumeDataBlock {
+        data_block_id: DataBlockId { data_block_type: b'R', data_name: *b"VOL" },
+        lrtup: 44,
+        major_version_number: 1,
+        minor_version_number: 0,
+        latitude: 35.0,
+        longitude: -97.0,
+        site_height: 300,
+        feedhorn_height: 20,
+        calibration_constant: 0.0,
+        horizontal_shv_tx_power: 0.0,
+        vertical_shv_tx_power: 0.0,
+        system_differential_reflectivity: 0.0,
+        initial_system_differential_phase: 0.0,
+        volume_coverage_pattern_number: vcp,
+        processing_status: 0,
+        zdr_bias_estimate_weighted_mean: 0,
+        spare: [0; 6],
+    }
+}
+
+fn radial_with(el: u8, az: f32, has_ref: bool, has_vel: bool, vcp: Option<u16>) -> MessageContents {
+    match radial(el, az, false) {
+        MessageContents::DigitalRadarData(mut m) => {
+            if has_ref {
+                m.reflectivity_data_block = Some(moment());
+            }
+            if has_vel {
+                m.velocity_data_block = Some(moment());
+            }
+            if let Some(v) = vcp {
+                m.volume_data_block = Some(vol(v));
+            }
+            MessageContents::DigitalRadarData(m)
+        }
+        _ => panic!("harness"),
+    }
+}
+
+#[kani::proof]
+#[kani::unwind(40)]
+#[kani::stub(alloc::fmt::format, crate::stubs::fmt_format)]
+#[kani::stub(std::hash::RandomState::new, random_state_fixed)]
+fn c14_data_counts_and_vcp_set() {
+    let e0: u8 = kani::any();
+    let e1: u8 = kani::any();
+    let second_vol: bool = kani::any();
+    let mut msgs: Vec<Message> = Vec::with_capacity(2);
+    msgs.push(message_unsegmented(header(31, 5_000), radial_with(e0, 0.0, true, true, Some(212))));
+    msgs.push(message_unsegmented(header(31, 9_000), radial_with(e1, 1.0, true, false, if second_vol { Some(35) } else { None })));
+    let s = summarize::messages(&msgs);
+    let g = &s.message_groups;
+    let count = |k: usize, name: &str| -> usize {
+        match &g[k].data_types {
+            Some(m) => match m.get(name) {
+                Some(c) => *c,
+                None => 0,
+            },
+            None => panic!("C14: radial group without data-type counts"),
+        }
+    };
+    if e0 == e1 {
+        assert!(g.len() == 1 && g[0].message_count == 2, "C14: equal elevation numbers form one group");
+        assert!(count(0, "Reflectivity") == 2, "C14: per-group data-type count (Reflectivity)");
+        assert!(count(0, "Velocity") == 1, "C14: per-group data-type count (Velocity)");
+        assert!(count(0, "Spectrum Width") == 0, "C14: absent block counted");
+    } else {
+        assert!(g.len() == 2, "C14: different elevation numbers form two groups");
+        assert!(count(0, "Reflectivity") == 1 && count(0, "Velocity") == 1, "C14: counts of the first group");
+        assert!(count(1, "Reflectivity") == 1 && count(1, "Velocity") == 0, "C14: counts of the second group");
+    }
+    let vs = &s.volume_coverage_patterns;
+    assert!(vs.len() == if second_vol { 2 } else { 1 }, "C14: VCP set size");
+    assert!(vs.contains(&digital_radar_data::VolumeCoveragePattern::VCP212), "C14: VCP set misses a named pattern");
+    assert!(vs.contains(&digital_radar_data::VolumeCoveragePattern::VCP35) == second_vol, "C14: VCP set membership");
+    wit!(e0 == e1 && second_vol);
+    wit!(e0 != e1 && !second_vol);
     core::mem::forget(s);
     core::mem::forget(msgs);
 }
